@@ -23,7 +23,12 @@ def budget(tier):
 
 @st.composite
 def strategy_(draw):
-    rs = draw(pipeline.ref_dataset_specs(max_levels=3, max_leaves=7, min_leaves=2, allow_odd=True))
+    if draw(st.integers(0, 19)) == 7:
+        # a reference with more clusters than a one-byte index addresses (257-300), few cells each, more genes
+        rs = draw(pipeline.ref_dataset_specs(max_levels=2, max_leaves=300, min_leaves=257, n_genes=draw(st.sampled_from([64, 80])),
+                                             cells_per=draw(st.integers(3, 4))))
+    else:
+        rs = draw(pipeline.ref_dataset_specs(max_levels=3, max_leaves=7, min_leaves=2, allow_odd=True))
     ng = rs['n_genes']
     drop = draw(st.lists(st.integers(0, ng - 1), max_size=max(0, ng // 5), unique=True))
     qgenes = [f'g{i}' for i in range(ng) if i not in drop] + ['novel_a', 'novel_b'][:draw(st.integers(0, 2))]
@@ -182,6 +187,8 @@ def check(spec):
                     raise Violation('single_child_not_followed', {'centroid': lf, 'level': lv})
             parent = (lv, want)
     classes = [f'levels_{len(h)}', 'factor_1' if spec['cfg']['bootstrap_factor'] == 1.0 else 'factor_lt_1', 'ref_' + rs['dtype'], 'ref_' + rs['enc']]
+    if len(rs['tree'][h[-1]]) > 256:
+        classes.append('more_than_256_clusters')
     if skipped:
         classes.append('precondition_skips')
     return Case(checked > 0, classes, info={'node_visits_checked': checked, 'node_visits_skipped': skipped})
